@@ -211,9 +211,25 @@ def next_level_instances(ctx) -> List[Tuple[KitClass, Optional[KitClass], KitCla
     return out
 
 
+def effective_structure_owner(p, kc: KitClass):
+    """the class whose structure() does the work for kc: pass-through overrides (`return super(...).structure()`) skipped"""
+    owner, func = kc.structure_owner, kc.structure_func
+    guard = 0
+    while owner is not None and func is not None and _delegates_node(func.node) and guard < 10:
+        guard += 1
+        nxt_owner, nxt = p.class_attr_def(kc.ci, "structure", after=owner)
+        if nxt_owner is None or not isinstance(nxt, FuncInfo):
+            break
+        owner, func = nxt_owner, nxt
+    return owner
+
+
 def _delegates_to_super(kc: KitClass) -> bool:
     """structure() is just ``return super(...).structure()``."""
-    fn = kc.structure_func.node
+    return _delegates_node(kc.structure_func.node)
+
+
+def _delegates_node(fn) -> bool:
     body = [s for s in fn.body if not (isinstance(s, ast.Expr) and isinstance(s.value, ast.Constant))]
     if len(body) == 1 and isinstance(body[0], ast.Return) and isinstance(body[0].value, ast.Call):
         f = body[0].value.func
